@@ -16,13 +16,14 @@ import (
 )
 
 const (
-	BindPost     = "urn:oasis:names:tc:SAML:2.0:bindings:HTTP-POST"
-	BindRedirect = "urn:oasis:names:tc:SAML:2.0:bindings:HTTP-Redirect"
-	BindArtifact = "urn:oasis:names:tc:SAML:2.0:bindings:HTTP-Artifact"
-	BindPAOS     = "urn:oasis:names:tc:SAML:2.0:bindings:PAOS"
-	BindSOAP     = "urn:oasis:names:tc:SAML:2.0:bindings:SOAP"
-	EncDeflate   = "urn:oasis:names:tc:SAML:2.0:bindings:URL-Encoding:DEFLATE"
-	StatusOK     = "urn:oasis:names:tc:SAML:2.0:status:Success"
+	BindPost       = "urn:oasis:names:tc:SAML:2.0:bindings:HTTP-POST"
+	BindRedirect   = "urn:oasis:names:tc:SAML:2.0:bindings:HTTP-Redirect"
+	BindArtifact   = "urn:oasis:names:tc:SAML:2.0:bindings:HTTP-Artifact"
+	BindPAOS       = "urn:oasis:names:tc:SAML:2.0:bindings:PAOS"
+	BindSimpleSign = "urn:oasis:names:tc:SAML:2.0:bindings:HTTP-POST-SimpleSign"
+	BindSOAP       = "urn:oasis:names:tc:SAML:2.0:bindings:SOAP"
+	EncDeflate     = "urn:oasis:names:tc:SAML:2.0:bindings:URL-Encoding:DEFLATE"
+	StatusOK       = "urn:oasis:names:tc:SAML:2.0:status:Success"
 )
 
 func xa(s string) string { var sb strings.Builder; escAttr(&sb, s); return sb.String() }
@@ -726,6 +727,9 @@ func safeHost(h string) string {
 	}
 	if h == "" {
 		return "placeholder.invalid"
+	}
+	if u, err := url.Parse("http://" + h + "/"); err != nil || u.Host != h {
+		return "placeholder.invalid" // the request line only needs some parseable authority; the Host header is set separately
 	}
 	return h
 }
